@@ -1,5 +1,6 @@
 import Rain.Log
 import Rain.Lemmas.Log
+import Rain.Lemmas.LogClean
 /-
 C12 — "Log files return exactly the records appended, for every size and reopen point".
 
@@ -65,6 +66,78 @@ theorem C12_offset_sync (c : Cfg) (h : c.WF) (recs : List Bytes) :
     (appendAllWrites c 0 recs).2 ≤ c.B :=
   offset_sync c h.hB recs
 
+/-! ### `was_read_cleanly_to_end`: when recovery may re-open a log for appending -/
+
+/-- the status-carrying reader returns exactly the records of the plain reader -/
+theorem C12_status_reader_same_records (c : Cfg) (file : Bytes) :
+    (readAllS c file).1 = readAll c file :=
+  readAllS_records c file
+
+/-- a completely written log reads cleanly to its end (so it IS re-used) -/
+theorem C12_written_log_is_reusable (c : Cfg) (h : c.WF) (recs : List Bytes) :
+    (readAllS c (writeSession c [] recs)).2 = true :=
+  written_is_clean c h.hB h.hB2 h.hcrc recs
+
+/-
+First version of the next theorem (false since a completely present trailer is consumed before
+asking whether bytes are left over, as the implementation does):
+  theorem C12_torn_log_is_not_reused (c : Cfg) (h : c.WF) (recs : List Bytes) (n k : Nat)
+      (hk : k < recs.length) (hlo : lenAfter c recs k < n) (hhi : n < lenAfter c recs (k+1)) :
+      (readAllS c ((writeSession c [] recs).take n)).2 = false
+Counterexample: `B = 16`, records of 5 and 3 bytes, `k = 1`, `n = 16`: `lenAfter 1 = 12`, the
+writer pads bytes 12..15 before the header of the second record, `lenAfter 2 = 26`; the file cut
+at 16 ends exactly after the complete trailer and the flag is `true` (third `example` below).
+That cut, `n = lenAfter k + padAfter (lenAfter k)`, is the only exception (`hne`), and it is
+harmless: `C12_padding_end_is_clean_and_safe`.
+-/
+/--
+a log cut strictly inside record `k+1` (at least one byte written for it -- padding counts -- and
+not all of them), other than exactly after the complete padding that precedes its first header,
+does NOT read cleanly, so it is not re-used
+-/
+theorem C12_torn_log_is_not_reused (c : Cfg) (h : c.WF) (recs : List Bytes) (n k : Nat)
+    (hk : k < recs.length) (hlo : lenAfter c recs k < n)
+    (hne : n ≠ lenAfter c recs k + padAfter c (lenAfter c recs k))
+    (hhi : n < lenAfter c recs (k+1)) :
+    (readAllS c ((writeSession c [] recs).take n)).2 = false :=
+  torn_is_dirty c h.hB h.hB2 h.hcrc recs n k hk hlo hne hhi
+
+/-- in particular: as soon as one byte of the first header of record `k+1` is present -/
+theorem C12_torn_log_is_not_reused_header (c : Cfg) (h : c.WF) (recs : List Bytes) (n k : Nat)
+    (hk : k < recs.length) (hlo : lenAfter c recs k + padAfter c (lenAfter c recs k) < n)
+    (hhi : n < lenAfter c recs (k+1)) :
+    (readAllS c ((writeSession c [] recs).take n)).2 = false :=
+  torn_is_dirty_header c h.hB h.hB2 h.hcrc recs n k hk hlo hhi
+
+/--
+the complementary case: cut exactly after the complete padding that precedes record `k+1` (or at
+the end of record `k` when there is no padding). The flag is `true`, the file reads as the first
+`k` records, and appending to it is safe.
+-/
+theorem C12_padding_end_is_clean_and_safe (c : Cfg) (h : c.WF) (recs : List Bytes) (k : Nat)
+    (hk : k < recs.length) (rs : List Bytes) :
+    (readAllS c ((writeSession c [] recs).take (lenAfter c recs k + padAfter c (lenAfter c recs k)))).2
+      = true ∧
+    readAll c (writeSession c
+      ((writeSession c [] recs).take (lenAfter c recs k + padAfter c (lenAfter c recs k))) rs)
+      = recs.take k ++ rs := by
+  unfold lenAfter
+  have hc := padding_end_is_clean c h.hB h.hB2 h.hcrc recs k hk
+  refine ⟨hc, ?_⟩
+  rw [clean_append c h.hB h.hB2 h.hcrc _ hc rs,
+    truncation c h.hB h.hB2 h.hcrc recs _ k (Nat.le_of_lt hk) (Nat.le_add_right _ _)
+      (Or.inr (padding_end_lt c h.hB recs k hk))]
+
+/--
+**Appending to ANY file that reads cleanly is safe**: `file` is arbitrary bytes (not necessarily
+produced by this writer); if the reader consumes it cleanly, a writer re-opened on it that appends
+`rs` yields a file that reads back as the old records followed by `rs`.
+-/
+theorem C12_clean_append (c : Cfg) (h : c.WF) (file : Bytes)
+    (hclean : (readAllS c file).2 = true) (rs : List Bytes) :
+    readAll c (writeSession c file rs) = readAll c file ++ rs :=
+  clean_append c h.hB h.hB2 h.hcrc file hclean rs
+
 /-! ### the code's instance, and non-vacuity -/
 
 /-- The real constants satisfy the hypotheses (re-checked whenever `/repo`'s constants change). -/
@@ -90,5 +163,15 @@ example : readAll tinyCfg (writeSessions tinyCfg [] [[[1, 2, 3]], [List.replicat
 /-- the hypothesis of `C12_partial_then_append` is satisfiable: a 20-byte record needs 3 writes -/
 example : 1 < (appendWrites tinyCfg (openOffset tinyCfg (writeSession tinyCfg [] [[1]]).length)
     (List.replicate 20 7)).1.length := by decide
+
+/-- the flag is computable and both values occur: whole file clean, cut inside the last record dirty,
+cut exactly at the end of the padding that precedes the second record (`n = 16 = 12 + 4`) clean,
+cut inside that padding dirty -/
+example : (readAllS tinyCfg (writeSession tinyCfg [] [[1, 2, 3, 4, 5], [6, 7, 8]])).2 = true ∧
+    (readAllS tinyCfg ((writeSession tinyCfg [] [[1, 2, 3, 4, 5], [6, 7, 8]]).take 20)).2 = false ∧
+    (readAllS tinyCfg ((writeSession tinyCfg [] [[1, 2, 3, 4, 5], [6, 7, 8]]).take 16)).2 = true ∧
+    (readAllS tinyCfg ((writeSession tinyCfg [] [[1, 2, 3, 4, 5], [6, 7, 8]]).take 14)).2 = false ∧
+    lenAfter tinyCfg [[1, 2, 3, 4, 5], [6, 7, 8]] 1 = 12 ∧ padAfter tinyCfg 12 = 4 := by
+  decide
 
 end Rain.Log
